@@ -1,0 +1,35 @@
+//go:build verif
+// +build verif
+
+package bfe_http2
+
+// Verification hook for property C38 (HTTP/2 responses carry exactly the handler's response).
+// Add-only, compiled only with build tag "verif"; used by /verif/harness/cmd/c38.
+
+import (
+	http "github.com/bfenetworks/bfe/bfe_http"
+)
+
+// VerifC38HandlerFinished reports whether responseWriter.handlerDone has completed for w, i.e. the
+// final Flush of the response has returned and the responseWriterState was detached.  After that no
+// further frame can be produced for the stream by the handler goroutine.
+func VerifC38HandlerFinished(w http.ResponseWriter) bool {
+	rw, ok := w.(*responseWriter)
+	return ok && rw.rws == nil
+}
+
+var verifC38LastConn *serverConn
+
+// VerifC38Capture makes ServeConn remember the serverConn it creates (through the existing test hook).
+func VerifC38Capture() {
+	testHookGetServerConn = func(sc *serverConn) { verifC38LastConn = sc }
+}
+
+// VerifC38PendingWrites is the number of frames handlers have handed to the serve loop of the last
+// captured connection that the loop has not yet picked up.
+func VerifC38PendingWrites() int {
+	if verifC38LastConn == nil {
+		return 0
+	}
+	return len(verifC38LastConn.wantWriteFrameCh)
+}
